@@ -16,7 +16,8 @@ IMPORTS = "C06.Model"
 RULE = ("every method of the property's list x batch sizes {1,2,3,workload-1,workload,workload+1,N*workload+1,None} x N in 1..4; "
         "selections of the inputs (permutation, subset, duplication) for deterministic methods; HSIC also over "
         "estimator_batch_size; non-trivial = at least one batch size that does not divide the workload and one above it")
-ASSUMPTIONS = ["sampling methods (Lime, KernelShap, Sobol, HSIC, SmoothGrad family at noise 0) are run eagerly under a fixed seed so "
+ASSUMPTIONS = ["Sobol / HSIC maps are compared within rtol 1e-3, atol 1e-4 max|map| (variance-normalised estimators amplify batch-size-dependent float32 rounding of the model); everything else rtol 2e-5, atol 2e-6",
+               "sampling methods (Lime, KernelShap, Sobol, HSIC, SmoothGrad family at noise 0) are run eagerly under a fixed seed so "
                "that the draws are the same for every batch size",
                "tolerance rtol 2e-5 / atol 2e-6: float32 reductions may be grouped differently when the batch changes"]
 
@@ -220,7 +221,14 @@ def run_impl(case):
     keys = list(outs)
     ref = outs[keys[0]]
     agree = {}
+    # Sobol / HSIC divide by a variance estimated on 4..16 designs: the float32 rounding of the Keras model, which differs
+    # between batch sizes (other kernels for a batch of one), is amplified; a batching defect moves the maps by O(1)
+    loose = what in ("Sobol", "HSIC", "HSIC_est")
     for k in keys[1:]:
+        if loose and outs[k].shape == ref.shape:
+            m = float(np.nanmax(np.abs(ref))) if np.isfinite(ref).any() else 1.0
+            agree[k] = bool(np.allclose(outs[k], ref, rtol=1e-3, atol=1e-4 * max(1.0, m), equal_nan=True))
+            continue
         agree[k] = bool(outs[k].shape == ref.shape and np.allclose(outs[k], ref, rtol=2e-5, atol=2e-6, equal_nan=True))
     finite = all(bool(np.all(np.isfinite(v))) for v in outs.values())
     exact_one = None
